@@ -836,6 +836,28 @@ func (s *vSerSys) roundTrip(h []string) {
 	} else {
 		s.vBackToBack(cfgS, h, buf.Bytes(), loaded)
 	}
+	// the receiver need not be fresh: an index that holds other documents and has already
+	// answered every observation query (whatever it remembers of them) reads the stream
+	// and must from then on answer like the source (ReadFrom replaces the content)
+	if !s.untrained {
+		used := vSerPopulated(s.k)
+		s.k.observe(used)
+		var uerr error
+		func() {
+			defer func() {
+				if r := recover(); r != nil {
+					uerr = fmt.Errorf("panic: %v", r)
+				}
+			}()
+			_, uerr = s.k.read(used, bytes.NewReader(buf.Bytes()))
+		}()
+		s.c.Evaluations++
+		if uerr != nil {
+			s.c.Violation("read-error", "used-receiver", cfgS, h, uerr.Error())
+		} else if d := vObsDiff(after, s.k.observe(used)); d != "" {
+			s.c.Violation("reload-changed-answers", "used-receiver", cfgS, h, d)
+		}
+	}
 	if len(s.live) > 0 {
 		s.c.Nontrivial(cfgS + "|" + s.k.canon(s.src))
 	}
